@@ -702,6 +702,8 @@ mod v_wire_roundtrip {
             match Icmpv6Repr::parse(&src, &dst, &p, &caps()) {
                 Ok(Icmpv6Repr::EchoRequest { ident, seq_no, data }) => {
                     // rebuilt in place: CBMC loses the discriminant of the large enum when it is moved out of the Result
+                    assert!(data.len() == 8, "prop:c06_reparse_of_parsed_is_identity");
+                    let data = &data[..8];
                     let r = Icmpv6Repr::EchoRequest { ident, seq_no, data };
                     let mut b = [0u8; 16];
                     assert!(r.buffer_len() == 16, "prop:c06_reparse_of_parsed_is_identity");
@@ -746,7 +748,35 @@ mod v_wire_roundtrip {
         }
     }
 
-    /// emit `$repr` (an NdiscRepr of declared length `$n`) twice, compare, parse back; yields the parse result
+    /// emit `$repr` (an NdiscRepr of declared length `$n`) into a zeroed and a garbage buffer and compare
+    macro_rules! ndisc_indep {
+        ($repr:expr, $n:expr, $k:ident => $keep:expr) => {{
+            let repr: NdiscRepr = $repr;
+            assert!(repr.buffer_len() == $n, "prop:c06_parse_of_emit_is_identity");
+            let mut b1 = [0u8; $n];
+            let mut b2: [u8; $n] = kani::any();
+            repr.emit(&mut Icmpv6Packet::new_unchecked(&mut b1[..]));
+            repr.emit(&mut Icmpv6Packet::new_unchecked(&mut b2[..]));
+            indep!(b1, b2, $n, $k => ($k < 2 || $k >= 4) && $keep);
+            kani::cover!(b1[$n - 1] != 0, "emitted, last byte non-zero");
+        }};
+    }
+    /// emit `$repr` into a buffer of its declared length `$n` and parse it back
+    macro_rules! ndisc_emit_parse {
+        ($repr:expr, $n:expr) => {{
+            let repr: NdiscRepr = $repr;
+            assert!(repr.buffer_len() == $n, "prop:c06_parse_of_emit_is_identity");
+            let mut b1 = [0u8; $n];
+            repr.emit(&mut Icmpv6Packet::new_unchecked(&mut b1[..]));
+            let p = Icmpv6Packet::new_checked(&b1[..]);
+            assert!(p.is_ok(), "prop:c06_emitted_packet_passes_new_checked");
+            let p = p.unwrap();
+            let back = NdiscRepr::parse(&p);
+            assert!(back == Ok(repr), "prop:c06_parse_of_emit_is_identity");
+            kani::cover!(back.is_ok() && b1[$n - 1] != 0, "parsed back, last byte non-zero");
+        }};
+    }
+    /// both of the above in one harness (small messages)
     macro_rules! ndisc_tail {
         ($repr:expr, $n:expr, $k:ident => $keep:expr) => {{
             let repr: NdiscRepr = $repr;
@@ -882,32 +912,37 @@ mod v_wire_roundtrip {
         ndisc_tail!(NdiscRepr::Redirect { target_addr: any_v6(), dest_addr: any_v6(), lladdr: None, redirected_hdr: None }, 40, k => true);
     }
 
-    // @harness props=C06 cfg=KW tier=q to=600 mem=6 unwind=20 opts=nomem,fs128 covers=1 funcs=wire::ndisc::Repr::emit;wire::ndisc::Repr::parse;wire::ndisc::Repr::buffer_len;wire::ndiscoption::Repr::emit;wire::ndiscoption::Repr::parse bounds=redirect;_ethernet_lladdr+redirected_header_with_8_payload_bytes
+    /// Redirect with both options; the redirected header describes exactly the bytes that follow it (emit copies
+    /// data into the embedded packet's payload(), whose length is header.payload_len)
+    macro_rules! ndisc_redirect_full {
+        ($data:expr) => {{
+            let mut header = any_ipv6_repr(8);
+            header.payload_len = 8;
+            NdiscRepr::Redirect { target_addr: any_v6(), dest_addr: any_v6(), lladdr: Some(ll_eth()), redirected_hdr: Some(NdiscRedirectedHeader { header, data: $data }) }
+        }};
+    }
+
+    // @harness props=C06 cfg=KW tier=q to=600 mem=6 unwind=20 opts=nomem,fs128 covers=1 funcs=wire::ndisc::Repr::emit;wire::ndisc::Repr::parse;wire::ndisc::Repr::buffer_len;wire::ndiscoption::Repr::emit;wire::ndiscoption::Repr::parse bounds=redirect;_ethernet_lladdr+redirected_header_with_8_payload_bytes;_parse_of_emit
     #[kani::proof]
     pub(crate) fn rt_ndisc_redirect_full() {
         let data: [u8; 8] = kani::any();
-        // the redirected header describes exactly the bytes that follow it (emit copies data into the
-        // embedded packet's payload(), whose length is header.payload_len)
-        let mut header = any_ipv6_repr(8);
-        header.payload_len = 8;
-        ndisc_tail!(
-            NdiscRepr::Redirect { target_addr: any_v6(), dest_addr: any_v6(), lladdr: Some(ll_eth()), redirected_hdr: Some(NdiscRedirectedHeader { header, data: &data[..] }) },
-            104,
-            k => true
-        );
+        ndisc_emit_parse!(ndisc_redirect_full!(&data[..]), 104);
     }
 
-    // @harness props=C06 cfg=KW tier=t to=600 mem=6 unwind=20 opts=nomem,fs128 covers=1 funcs=wire::ndisc::Repr::emit;wire::ndisc::Repr::parse bounds=redirect;_redirected_header_with_16_payload_bytes_only
+    // @harness props=C06 cfg=KW tier=q to=600 mem=6 unwind=20 opts=nomem,fs128 covers=1 funcs=wire::ndisc::Repr::emit;wire::ndiscoption::Repr::emit bounds=redirect;_ethernet_lladdr+redirected_header_with_8_payload_bytes;_stale_buffer_check
+    #[kani::proof]
+    pub(crate) fn indep_ndisc_redirect_full() {
+        let data: [u8; 8] = kani::any();
+        ndisc_indep!(ndisc_redirect_full!(&data[..]), 104, k => true);
+    }
+
+    // @harness props=C06 cfg=KW tier=t to=600 mem=6 unwind=20 opts=nomem,fs128 covers=1 funcs=wire::ndisc::Repr::emit;wire::ndisc::Repr::parse bounds=redirect;_redirected_header_with_16_payload_bytes_only;_parse_of_emit
     #[kani::proof]
     pub(crate) fn rt_ndisc_redirect_hdr() {
         let data: [u8; 16] = kani::any();
         let mut header = any_ipv6_repr(16);
         header.payload_len = 16;
-        ndisc_tail!(
-            NdiscRepr::Redirect { target_addr: any_v6(), dest_addr: any_v6(), lladdr: None, redirected_hdr: Some(NdiscRedirectedHeader { header, data: &data[..] }) },
-            104,
-            k => true
-        );
+        ndisc_emit_parse!(NdiscRepr::Redirect { target_addr: any_v6(), dest_addr: any_v6(), lladdr: None, redirected_hdr: Some(NdiscRedirectedHeader { header, data: &data[..] }) }, 104);
     }
 
     // ------------------------------------------------------------------ NDISC options on their own
@@ -1408,8 +1443,8 @@ mod v_wire_roundtrip {
                 timestamp: if $ts { Some(TcpTimestampRepr::new(kani::any(), kani::any())) } else { None },
                 payload: &payload[..],
             };
-            let v6: bool = kani::any();
-            let (src, dst) = if v6 { (IpAddress::Ipv6(any_v6()), IpAddress::Ipv6(any_v6())) } else { (IpAddress::Ipv4(any_v4()), IpAddress::Ipv4(any_v4())) };
+            // the addresses only feed the checksum (ignored here)
+            let (src, dst) = (IpAddress::Ipv4(any_v4()), IpAddress::Ipv4(any_v4()));
             assert!(repr.header_len() == H && repr.buffer_len() == N, "prop:c06_parse_of_emit_is_identity");
             let mut b1 = [0u8; N];
             let mut b2: [u8; N] = kani::any();
@@ -1435,7 +1470,7 @@ mod v_wire_roundtrip {
         }};
     }
 
-    // @harness props=C06 cfg=KW tier=q to=600 mem=4 unwind=12 opts=nomem covers=1 funcs=wire::tcp::Repr::emit;wire::tcp::Repr::parse;wire::tcp::Repr::buffer_len;wire::tcp::Repr::header_len bounds=no_options;_ACK_present_or_absent;_6_payload_bytes
+    // @harness props=C06 cfg=KW tier=q to=900 mem=6 unwind=12 opts=nomem covers=1 funcs=wire::tcp::Repr::emit;wire::tcp::Repr::parse;wire::tcp::Repr::buffer_len;wire::tcp::Repr::header_len bounds=no_options;_ACK_present_or_absent;_6_payload_bytes
     #[kani::proof]
     pub(crate) fn rt_tcp_plain() {
         tcp_rt!(mss = false, ws = false, sackperm = false, sack = 0, ts = false, pl = 6);
@@ -1453,49 +1488,49 @@ mod v_wire_roundtrip {
         tcp_rt!(mss = false, ws = false, sackperm = false, sack = 3, ts = true, pl = 6);
     }
 
-    // @harness props=C06 cfg=KW tier=t to=600 mem=4 unwind=12 opts=nomem covers=1 funcs=wire::tcp::Repr::emit;wire::tcp::Repr::parse bounds=MSS_only;_6_payload_bytes
+    // @harness props=C06 cfg=KW tier=t to=900 mem=6 unwind=12 opts=nomem covers=1 funcs=wire::tcp::Repr::emit;wire::tcp::Repr::parse bounds=MSS_only;_6_payload_bytes
     #[kani::proof]
     pub(crate) fn rt_tcp_mss() {
         tcp_rt!(mss = true, ws = false, sackperm = false, sack = 0, ts = false, pl = 6);
     }
 
-    // @harness props=C06 cfg=KW tier=t to=600 mem=4 unwind=12 opts=nomem covers=1 funcs=wire::tcp::Repr::emit;wire::tcp::Repr::parse bounds=window_scale_only_(1_padding_byte);_6_payload_bytes
+    // @harness props=C06 cfg=KW tier=t to=900 mem=6 unwind=12 opts=nomem covers=1 funcs=wire::tcp::Repr::emit;wire::tcp::Repr::parse bounds=window_scale_only_(1_padding_byte);_6_payload_bytes
     #[kani::proof]
     pub(crate) fn rt_tcp_ws() {
         tcp_rt!(mss = false, ws = true, sackperm = false, sack = 0, ts = false, pl = 6);
     }
 
-    // @harness props=C06 cfg=KW tier=t to=600 mem=4 unwind=12 opts=nomem covers=1 funcs=wire::tcp::Repr::emit;wire::tcp::Repr::parse bounds=SACK-permitted_only;_no_payload
+    // @harness props=C06 cfg=KW tier=t to=900 mem=6 unwind=12 opts=nomem covers=1 funcs=wire::tcp::Repr::emit;wire::tcp::Repr::parse bounds=SACK-permitted_only;_no_payload
     #[kani::proof]
     pub(crate) fn rt_tcp_sackperm() {
         tcp_rt!(mss = false, ws = false, sackperm = true, sack = 0, ts = false, pl = 0);
     }
 
-    // @harness props=C06 cfg=KW tier=t to=600 mem=4 unwind=12 opts=nomem covers=1 funcs=wire::tcp::Repr::emit;wire::tcp::Repr::parse bounds=timestamp_only;_6_payload_bytes
+    // @harness props=C06 cfg=KW tier=t to=900 mem=6 unwind=12 opts=nomem covers=1 funcs=wire::tcp::Repr::emit;wire::tcp::Repr::parse bounds=timestamp_only;_6_payload_bytes
     #[kani::proof]
     pub(crate) fn rt_tcp_ts() {
         tcp_rt!(mss = false, ws = false, sackperm = false, sack = 0, ts = true, pl = 6);
     }
 
-    // @harness props=C06 cfg=KW tier=t to=600 mem=4 unwind=12 opts=nomem covers=1 funcs=wire::tcp::Repr::emit;wire::tcp::Repr::parse bounds=MSS+WS+timestamp;_6_payload_bytes
+    // @harness props=C06 cfg=KW tier=t to=900 mem=6 unwind=12 opts=nomem covers=1 funcs=wire::tcp::Repr::emit;wire::tcp::Repr::parse bounds=MSS+WS+timestamp;_6_payload_bytes
     #[kani::proof]
     pub(crate) fn rt_tcp_mss_ws_ts() {
         tcp_rt!(mss = true, ws = true, sackperm = false, sack = 0, ts = true, pl = 6);
     }
 
-    // @harness props=C06 cfg=KW tier=t to=600 mem=4 unwind=12 opts=nomem covers=1 funcs=wire::tcp::Repr::emit;wire::tcp::Repr::parse bounds=1_SACK_block;_6_payload_bytes
+    // @harness props=C06 cfg=KW tier=t to=900 mem=6 unwind=12 opts=nomem covers=1 funcs=wire::tcp::Repr::emit;wire::tcp::Repr::parse bounds=1_SACK_block;_6_payload_bytes
     #[kani::proof]
     pub(crate) fn rt_tcp_sack1() {
         tcp_rt!(mss = false, ws = false, sackperm = false, sack = 1, ts = false, pl = 6);
     }
 
-    // @harness props=C06 cfg=KW tier=t to=600 mem=4 unwind=12 opts=nomem covers=1 funcs=wire::tcp::Repr::emit;wire::tcp::Repr::parse bounds=1_SACK_block+timestamp;_6_payload_bytes
+    // @harness props=C06 cfg=KW tier=t to=900 mem=6 unwind=12 opts=nomem covers=1 funcs=wire::tcp::Repr::emit;wire::tcp::Repr::parse bounds=1_SACK_block+timestamp;_6_payload_bytes
     #[kani::proof]
     pub(crate) fn rt_tcp_sack1_ts() {
         tcp_rt!(mss = false, ws = false, sackperm = false, sack = 1, ts = true, pl = 6);
     }
 
-    // @harness props=C06 cfg=KW tier=t to=600 mem=4 unwind=12 opts=nomem covers=1 funcs=wire::tcp::Repr::emit;wire::tcp::Repr::parse bounds=2_SACK_blocks;_6_payload_bytes
+    // @harness props=C06 cfg=KW tier=t to=900 mem=6 unwind=12 opts=nomem covers=1 funcs=wire::tcp::Repr::emit;wire::tcp::Repr::parse bounds=2_SACK_blocks;_6_payload_bytes
     #[kani::proof]
     pub(crate) fn rt_tcp_sack2() {
         tcp_rt!(mss = false, ws = false, sackperm = false, sack = 2, ts = false, pl = 6);
@@ -1539,7 +1574,7 @@ mod v_wire_roundtrip {
                             assert!(back.timestamp == r.timestamp, "prop:c06_reparse_of_parsed_is_identity");
                             assert!(back.sack_ranges[0] == r.sack_ranges[0] && back.sack_ranges[1] == r.sack_ranges[1] && back.sack_ranges[2] == r.sack_ranges[2], "prop:c06_reparse_of_parsed_is_identity");
                             same_bytes!(back.payload, r.payload, $pl, "prop:c06_reparse_of_parsed_is_identity");
-                            kani::cover!(r.max_seg_size.is_some() && r.window_scale == Some(14), "parsed MSS and a clamped window scale");
+                            kani::cover!(r.max_seg_size.is_some() || r.window_scale == Some(14), "parsed an MSS or a clamped window-scale option");
                         }
                         Err(_) => assert!(false, "prop:c06_reparse_of_parsed_is_identity"),
                     }
@@ -1548,10 +1583,16 @@ mod v_wire_roundtrip {
         }};
     }
 
-    // @harness props=C06 cfg=KW tier=q to=900 mem=6 unwind=12 opts=nomem covers=1 funcs=wire::tcp::Repr::parse;wire::tcp::Repr::emit;wire::tcp::TcpOption::parse bounds=arbitrary_32_bytes:_header;_8_option_bytes;_4_payload_bytes
+    // @harness props=C06 cfg=KW tier=q to=900 mem=8 unwind=12 opts=nomem covers=1 funcs=wire::tcp::Repr::parse;wire::tcp::Repr::emit;wire::tcp::TcpOption::parse bounds=arbitrary_26_bytes:_header;_4_option_bytes;_2_payload_bytes
     #[kani::proof]
     pub(crate) fn reparse_tcp() {
-        tcp_reparse!(8, 4);
+        tcp_reparse!(4, 2);
+    }
+
+    // @harness props=C06 cfg=KW tier=t to=1800 mem=12 unwind=12 opts=nomem covers=1 funcs=wire::tcp::Repr::parse;wire::tcp::Repr::emit;wire::tcp::TcpOption::parse bounds=arbitrary_30_bytes:_header;_8_option_bytes;_2_payload_bytes
+    #[kani::proof]
+    pub(crate) fn reparse_tcp_opt8() {
+        tcp_reparse!(8, 2);
     }
 
     // ------------------------------------------------------------------ DHCPv4
@@ -1778,7 +1819,7 @@ mod v_wire_roundtrip {
     // Repr::emit lays the addressing fields out as: dst PAN id, dst address, [src PAN id unless compressed], src address.
     // Fixed by the harness (not expressible / not supported by emit): security_enabled = false (the Repr cannot carry the
     // auxiliary security header the flag announces), a sequence number is present, dst_pan_id is Some.
-    // Frame-control bytes 0..2 are excluded from the stale-buffer check: finding_ieee802154_frame_control_stale.
+    // The stale-buffer check starts from garbage with a zero frame-control word: finding_ieee802154_frame_control_stale.
 
     const fn ieee_len(dst_ext: bool, src: u8, compressed: bool) -> usize {
         3 + 2 + (if dst_ext { 8 } else { 2 }) + (if compressed { 0 } else { 2 }) + (match src { 0 => 0, 1 => 2, _ => 8 })
@@ -1817,9 +1858,13 @@ mod v_wire_roundtrip {
             assert!(repr.buffer_len() == N, "prop:c06_parse_of_emit_is_identity");
             let mut b1 = [0u8; N];
             let mut b2: [u8; N] = kani::any();
+            // garbage everywhere except the frame-control word: its setters only OR bits in, and a stale
+            // PAN-id-compression bit additionally moves the source address (finding_ieee802154_frame_control_stale)
+            b2[0] = 0;
+            b2[1] = 0;
             repr.emit(&mut Ieee802154Frame::new_unchecked(&mut b1[..]));
             repr.emit(&mut Ieee802154Frame::new_unchecked(&mut b2[..]));
-            indep!(b1, b2, N, k => k >= 2);
+            indep!(b1, b2, N);
             let f = Ieee802154Frame::new_checked(&b1[..]);
             assert!(f.is_ok(), "prop:c06_emitted_packet_passes_new_checked");
             let back = Ieee802154Repr::parse(&f.unwrap());
@@ -2076,7 +2121,11 @@ mod v_wire_roundtrip {
                 0 => ([0; 16], None),
                 1 => ([0xfe, 0x80, 0, 0, 0, 0, 0, 0, 0, 0, 0, 0xff, 0xfe, 0, r[14], r[15]], Some(Ieee802154Address::Short([r[14], r[15]]))),
                 2 => ([0xfe, 0x80, 0, 0, 0, 0, 0, 0, 0, 0, 0, 0xff, 0xfe, 0, r[14], r[15]], None),
-                3 => ([0xfe, 0x80, 0, 0, 0, 0, 0, 0, e[0] ^ 2, e[1], e[2], e[3], e[4], e[5], e[6], e[7]], Some(Ieee802154Address::Extended(e))),
+                3 => {
+                    // an EUI-64 that happens to look like the short-address IID (02-00-00-ff-fe-00-xx-xx) takes the 16-bit form instead
+                    kani::assume(!(e[0] == 2 && e[1] == 0 && e[2] == 0 && e[3] == 0xff && e[4] == 0xfe && e[5] == 0));
+                    ([0xfe, 0x80, 0, 0, 0, 0, 0, 0, e[0] ^ 2, e[1], e[2], e[3], e[4], e[5], e[6], e[7]], Some(Ieee802154Address::Extended(e)))
+                }
                 4 => ([0xfe, 0x80, 0, 0, 0, 0, 0, 0, r[8], r[9], r[10], 0x11, r[12], r[13], r[14], r[15]], None),
                 5 => ([0x20, r[1], r[2], r[3], r[4], r[5], r[6], r[7], r[8], r[9], r[10], r[11], r[12], r[13], r[14], r[15]], None),
                 6 => ([0xff, 0x02, 0, 0, 0, 0, 0, 0, 0, 0, 0, 0, 0, 0, 0, r[15]], None),
